@@ -13,8 +13,9 @@ CONSTANTS Keys = {"k0", "k1"}
           MaxSeq = 1
           MaxOps = 3
           MaxRounds = 0
+          TrackW0 = FALSE
           UseRun = TRUE
           Timely = TRUE
-          Devs = {"ErrStop"}
+          Devs = {"Dev_X03_ErrStop"}
 INVARIANTS NeverExpires
 CHECK_DEADLOCK FALSE
